@@ -20,6 +20,11 @@ WALL_CAP_MS = 180_000
 
 MAX_RLIMIT = 300_000_000
 RETRY_RLIMIT = 30_000_000
+SMALL_WALL_MS = 40_000
+FIRST_RLIMIT = 3_000_000
+FIRST_WALL_MS = 8_000
+FAILED_SECONDS = [0.0]  # wall time this process has spent on attempts that did not prove
+FAILED_SECONDS_CAP = 600.0
 
 
 def budget_for(baseline_units):
@@ -45,7 +50,7 @@ def _count():
     return int(st.get_key_value("rlimit count")) if "rlimit count" in st.keys() else 0
 
 
-def discharge(ob, timeout_ms=None, want_model=True, rlimit=None, _split=True):
+def discharge(ob, timeout_ms=None, want_model=True, rlimit=None, _split=True, _quick_only=False):
     t = time.time()
     g = ob.goal if not isinstance(ob.goal, bool) else z3.BoolVal(ob.goal)
     gs = z3.simplify(g)
@@ -61,7 +66,7 @@ def discharge(ob, timeout_ms=None, want_model=True, rlimit=None, _split=True):
         for c in g.children():
             sub = _Sub()
             sub.hyps, sub.goal = ob.hyps, c
-            discharge(sub, timeout_ms, want_model, rlimit, _split=True)
+            discharge(sub, timeout_ms, want_model, rlimit, _split=True, _quick_only=_quick_only)
             units = max(units, getattr(sub, "units", 0) or 0)
             if sub.result == "refuted":
                 res, model = "refuted", getattr(sub, "model", None)
@@ -74,12 +79,59 @@ def discharge(ob, timeout_ms=None, want_model=True, rlimit=None, _split=True):
     # attempt schedule (deterministic): four seeds at a small budget - other seeds often succeed on
     # mixed real/integer obligations - then one attempt at the full budget
     small = min(budget, RETRY_RLIMIT)
-    plan = [(0, small), (1, small), (2, small), (3, small)] if not (rlimit and rlimit < MIN_RLIMIT) else [(0, budget)]
+    plan = [(0, small, SMALL_WALL_MS), (1, small, SMALL_WALL_MS), (2, small, SMALL_WALL_MS), (3, small, SMALL_WALL_MS)] if not (rlimit and rlimit < MIN_RLIMIT) else [(0, budget, WALL_CAP_MS)]
     if budget > small:
-        plan.append((0, budget))
-    for seed, lim in plan:
+        plan.append((0, budget, WALL_CAP_MS))
+    if _quick_only or FAILED_SECONDS[0] > FAILED_SECONDS_CAP:
+        # another instance of this obligation is already open, or this run has already spent a long
+        # time on obligations that do not verify: one small attempt (can still refute)
+        plan = plan[:1]
+    # attempt 0: a short one as is (most obligations need well under a million units)
+    if small > FIRST_RLIMIT:
+        plan.insert(0, (0, FIRST_RLIMIT, FIRST_WALL_MS))
+        seed, lim, wall = plan[0]
         s = z3.Solver()
-        s.set("timeout", timeout_ms or WALL_CAP_MS)
+        s.set("timeout", wall)
+        s.set("rlimit", lim)
+        for h in ob.hyps:
+            s.add(h)
+        s.add(z3.Not(g))
+        c0 = _count()
+        r = s.check()
+        budget_used = lim
+        if r != z3.unknown:
+            plan = []
+        else:
+            plan = plan[1:]
+    # attempt 1: nonlinear operations abstracted to uninterpreted functions (sound for `unsat`)
+    cache, any_change = {}, False
+    ah = []
+    for h in (ob.hyps if plan else []):
+        h2, ch = abstract_nonlinear(h if not isinstance(h, bool) else z3.BoolVal(h), cache)
+        any_change |= ch
+        ah.append(h2)
+    if plan:
+        g2, ch = abstract_nonlinear(g, cache)
+        any_change |= ch
+    if any_change and plan:
+        s = z3.Solver()
+        s.set("timeout", SMALL_WALL_MS)
+        s.set("rlimit", small)
+        for h in ah:
+            s.add(h)
+        s.add(z3.Not(g2))
+        c0 = _count()
+        sa = s
+        if sa.check() == z3.unsat:
+            ob.seconds, ob.backend, ob.result = time.time() - t, "z3 (nonlinear terms abstracted)", "proved"
+            try:
+                ob.units = max(0, int(s.statistics().get_key_value("rlimit count")) - c0)
+            except Exception:
+                ob.units = 0
+            return ob
+    for seed, lim, wall in plan:
+        s = z3.Solver()
+        s.set("timeout", min(timeout_ms or wall, wall))
         s.set("rlimit", lim)
         if seed:
             s.set("random_seed", seed)
@@ -93,6 +145,8 @@ def discharge(ob, timeout_ms=None, want_model=True, rlimit=None, _split=True):
             break
     ob.seconds = time.time() - t
     ob.backend = "z3"
+    if r != z3.unsat:
+        FAILED_SECONDS[0] += ob.seconds
     try:
         st = s.statistics()
         ob.units = max(0, (int(st.get_key_value("rlimit count")) if "rlimit count" in st.keys() else c0) - c0)
@@ -117,15 +171,15 @@ def discharge(ob, timeout_ms=None, want_model=True, rlimit=None, _split=True):
 
 def discharge_all(obs, timeout_ms=None, budgets=None):
     """instances of one aggregated obligation (same name, different paths) are discharged until the
-    obligation is decided: after a refuted instance, or two open ones, the remaining instances are
-    not attempted (the obligation has already failed) - keeps a failing tree from burning the budget"""
+    obligation is decided: after a refuted instance the remaining instances are not attempted, after
+    an open one the next three get one small attempt each and the rest are not attempted (the obligation has already failed) - keeps a failing tree from burning the budget"""
     budgets = budgets or {}
     refuted, opens = set(), {}
     for ob in obs:
-        if ob.name in refuted or opens.get(ob.name, 0) >= 2:
+        if ob.name in refuted or opens.get(ob.name, 0) >= 4:
             ob.result, ob.reason, ob.backend = "open", "not attempted: another instance of this obligation already failed", "skipped"
             continue
-        discharge(ob, timeout_ms, rlimit=budget_for(budgets.get(ob.name)))
+        discharge(ob, timeout_ms, rlimit=budget_for(budgets.get(ob.name)), _quick_only=opens.get(ob.name, 0) >= 1)
         if ob.result == "refuted":
             refuted.add(ob.name)
         elif ob.result != "proved":
@@ -151,3 +205,71 @@ def cvc5_check(ob, timeout_s=60):
         return "unknown"
     finally:
         os.unlink(fn)
+
+
+# ---------------------------------------------------------------------------------------------
+# sound abstraction of nonlinear arithmetic: every product of two non-numeral terms and every
+# quotient / modulus by a non-numeral becomes an application of an uninterpreted function.  Any model
+# of the original formula is a model of the abstraction (interpret the functions as the operations),
+# so `unsat` for the abstraction proves the original obligation; `sat` means nothing and the
+# obligation goes on to the attempts with real arithmetic.  Quantified subformulas are left alone.
+_ABS_FUNCS = {}
+
+
+def _abs_fn(name, *sorts):
+    key = (name,) + tuple(str(s) for s in sorts)
+    if key not in _ABS_FUNCS:
+        _ABS_FUNCS[key] = z3.Function("abs!%s!%s" % (name, "!".join(str(s) for s in sorts[:-1])), *sorts)
+    return _ABS_FUNCS[key]
+
+
+def _is_num(e):
+    return z3.is_int_value(e) or z3.is_rational_value(e) or (z3.is_app(e) and e.decl().kind() == z3.Z3_OP_TO_REAL and z3.is_int_value(e.arg(0)))
+
+
+def abstract_nonlinear(e, cache=None):
+    cache = {} if cache is None else cache
+    changed = [False]
+
+    def go(t):
+        k = t.get_id()
+        if k in cache:
+            return cache[k]
+        if not z3.is_app(t):  # quantifier or bound variable: untouched
+            cache[k] = t
+            return t
+        args = [go(a) for a in t.children()]
+        kind = t.decl().kind()
+        r = None
+        if kind == z3.Z3_OP_MUL and z3.is_arith(t):
+            nums = [a for a in args if _is_num(a)]
+            rest = [a for a in args if not _is_num(a)]
+            if len(rest) >= 2:
+                rest.sort(key=lambda a: a.get_id())
+                acc = rest[0]
+                for a in rest[1:]:
+                    acc = _abs_fn("mul", acc.sort(), a.sort(), t.sort())(acc, a)
+                for n in nums:
+                    acc = n * acc
+                r = acc
+                changed[0] = True
+        elif kind in (z3.Z3_OP_DIV, z3.Z3_OP_IDIV, z3.Z3_OP_MOD, z3.Z3_OP_REM) and z3.is_arith(t) and not _is_num(args[1]):
+            nm = {z3.Z3_OP_DIV: "div", z3.Z3_OP_IDIV: "idiv", z3.Z3_OP_MOD: "mod", z3.Z3_OP_REM: "rem"}[kind]
+            r = _abs_fn(nm, args[0].sort(), args[1].sort(), t.sort())(args[0], args[1])
+            changed[0] = True
+        elif kind == z3.Z3_OP_POWER and z3.is_arith(t):
+            r = _abs_fn("pow", args[0].sort(), args[1].sort(), t.sort())(args[0], args[1])
+            changed[0] = True
+        if r is None:
+            if all(a.get_id() == c.get_id() for a, c in zip(args, t.children())):
+                r = t
+            else:
+                try:
+                    r = t.decl()(*args)
+                except Exception:
+                    r = t
+        cache[k] = r
+        return r
+
+    out = go(e)
+    return out, changed[0]
